@@ -1,7 +1,8 @@
 // kernels.go — a deliberately tiny Go→Lean translator for the decision kernels of rules/standard (P4), of
 // services/checker/static and services/process/standard (P7, second half of this file) and of util/scatter.go,
 // the gRPC receiver's senderID, OnCommit, getGeneration and peers.Suitable (P9), and of the import command's merge
-// loop in slashingprotection.go (P12, last part of this file).  The signer's batch signing loop (P15) is in signloop.go.
+// loop in slashingprotection.go (P12, last part of this file).  The signer's batch signing loop (P15) is in signloop.go,
+// the signer's pre-check (P16) in precheck.go, the ruler's RunRules (P17) in runrules.go.
 //
 // It is a guard-chain extractor, not a Go compiler: the body of each kernel is read as a sequence of
 // guards (`if cond { …log…; return rules.X }`), local aliases, state-field updates and a final return,
@@ -196,6 +197,43 @@ var kernelSpecs = []kernelSpec{
 		file: "services/signer/standard/multisign.go", fn: "Multisign",
 		name: "signLoopBoundMultiGen", guards: "signLoopBoundMultiGuards", model: "Dirk.multisignShort (the `take k`, `padUnknown`)",
 		pkgLog: true, custom: transSignLoopBound,
+	},
+	// ---- P16 (precheck.go) ----
+	{
+		file: pcFile, fn: "fetchAccount",
+		name: "fetchAccountGen", guards: "fetchAccountGuards", model: "Dirk.fetchAccount",
+		pkgLog: true, custom: transPreCheckKernel,
+	},
+	{
+		file: pcFile, fn: "checkAccess",
+		name: "checkAccessGen", guards: "checkAccessGuards", model: "Dirk.preCheck (the permission check)",
+		pkgLog: true, custom: transPreCheckKernel,
+	},
+	{
+		file: pcFile, fn: "unlockAccount",
+		name: "unlockAccountGen", guards: "unlockAccountGuards", model: "Dirk.preCheck (its tail: `lockStateFail`, `acct.unlockable`)",
+		pkgLog: true, custom: transPreCheckKernel,
+	},
+	{
+		file: pcFile, fn: "preCheck",
+		name: "preCheckGen", guards: "preCheckGuards", model: "Dirk.preCheck",
+		pkgLog: true, custom: transPreCheckKernel,
+	},
+	// ---- P17 (runrules.go) ----
+	{
+		file: rrFile, fn: "RunRules",
+		name: "runRulesValidateGen", guards: "runRulesValidateGuards", model: "Dirk.firstDup / the refusals of Dirk.signAtts, Dirk.multisign before the rules",
+		pkgLog: true, custom: transRunRulesValidate,
+	},
+	{
+		file: rrFile, fn: "RunRules",
+		name: "runRulesLockProtocolGen", guards: "runRulesLockProtocolGuards", model: "Dirk.lockWrap (Model/LockTrace.lean), the thread program of Model/Conc.lean",
+		pkgLog: true, custom: transRunRulesProtocol,
+	},
+	{
+		file: rrFile, fn: "runRules",
+		name: "runRulesPathGen", guards: "runRulesPathGuards", model: "Dirk.rulesKeyed (single rule vs. Dirk.onAttestBatch)",
+		pkgLog: true, custom: transRunRulesPath,
 	},
 }
 
@@ -1127,7 +1165,9 @@ func writeKernels(repo, dir string) {
 	b.WriteString("/-\n  Dirk.Gen.Kernels — GENERATED — do not edit.  Regenerated on every run by /verif/factx (kernels.go) from the\n" +
 		"  Go source of the decision kernels (rules/standard, services/checker/static, services/process/standard,\n" +
 		"  util/scatter.go, services/api/grpc/handlers/receiver, services/peers/static, slashingprotection.go,\n" +
-		"  services/signer/standard: the batch signing loop, with core/result.go and rules/service.go for the enumerator values);\n" +
+		"  services/signer/standard: the batch signing loop and the pre-check, with core/result.go and rules/service.go for the\n" +
+		"  enumerator values; services/ruler/golang/runner.go: RunRules and the head of runRules, with services/ruler/service.go\n" +
+		"  for the action constants);\n" +
 		"  Dirk/Props/KernelsEq.lean proves each definition\n" +
 		"  equal to the hand-written model function.  A kernel outside the translatable fragment appears as\n" +
 		"  `kernelUntranslatable_<name>` instead, and KernelsEq.lean does not build.\n-/\n" +
